@@ -92,6 +92,32 @@ def records_of(files, sc):
     return recs
 
 
+
+def warm_request(sc, g, k, base_recs=None):
+    """The driver request for the run warm-started from output file `k` of the uninterrupted run `g`."""
+    fk = g["files"][k]
+    at, _ = abs_times(fk)
+    rstep = int(round((at[-1] - sc["start"]) / scen.DT))
+    if base_recs is None:
+        base_recs = records_of(g["files"], sc)
+    last = base_recs[at[-1]]
+    parts = []
+    for i, pid in enumerate(last["pid"]):
+        vars_ = {}
+        if sc["age"]:
+            vars_["age"] = val_s(last["age"][i])
+        for nm in scen.extra_forcing(sc):
+            vars_[nm] = "nan"
+        parts.append(dict(pid=pid, X=val_s(last["X"][i]), Y=val_s(last["Y"][i]), Z=val_s(last["Z"][i]), alive=True, active=True,
+                          vars=vars_, pvars={}))
+    npid = max(max(fk["pid"] + [-1]) + 1, fk["particle_dim"])
+    pvt = [dict(release_time=val_s(x)) if x is not None else dict(release_time="nan") for x in (last.get("release_time") or [])][:npid]
+    sc2 = copy.deepcopy(sc)
+    sc2["outname"] = g["files"][k + 1]["name"]
+    rq = scen.request(sc2, warm=dict(parts=parts, npid=npid, pvtable=pvt), start_step=rstep)
+    return sc2, rq
+
+
 def run(ctx: Ctx):
     use_repo()
     n = 200 if ctx.thorough else 28
@@ -153,21 +179,7 @@ def run(ctx: Ctx):
                 ctx.violation("failing-input", "restart", case, dict(bad, theorem="Ladim.C08.restart_transparent"), tags=tags)
                 continue
             # the restarted run against the model's warmRun
-            last = base_recs[at[-1]]
-            parts = []
-            for i, pid in enumerate(last["pid"]):
-                vars_ = {}
-                if sc["age"]:
-                    vars_["age"] = val_s(last["age"][i])
-                for nm in scen.extra_forcing(sc):
-                    vars_[nm] = "nan"
-                parts.append(dict(pid=pid, X=val_s(last["X"][i]), Y=val_s(last["Y"][i]), Z=val_s(last["Z"][i]), alive=True, active=True,
-                                  vars=vars_, pvars={}))
-            npid = max(max(fk["pid"] + [-1]) + 1, fk["particle_dim"])
-            pvt = [dict(release_time=val_s(x)) if x is not None else dict(release_time="nan") for x in (last.get("release_time") or [])][:npid]
-            sc2 = copy.deepcopy(sc)
-            sc2["outname"] = g["files"][k + 1]["name"]
-            rq = scen.request(sc2, warm=dict(parts=parts, npid=npid, pvtable=pvt), start_step=rstep)
+            sc2, rq = warm_request(sc, g, k, base_recs)
             reqs.append(rq); rmeta.append((sc2, case, rs, tags))
     want = driver(reqs)
     for (sc2, case, rs, tags), w in zip(rmeta, want):
